@@ -175,13 +175,57 @@ def trivial(line, res):
     return res not in ('OK', 'PANIC')
 
 
+def fp_oracle():
+    """second harness binary with `--features fixed_point` (same sources, own target dir; pre-built by setup.sh)"""
+    import os, subprocess
+    v = os.path.dirname(os.path.dirname(os.path.abspath(__file__)))
+    env = dict(os.environ, CARGO_NET_OFFLINE='true', CARGO_TARGET_DIR=os.path.join(v, '.build', 'cargo-fp'))
+    p = subprocess.run('cargo build -j4 --release --offline --features fixed_point', shell=True, cwd=os.path.join(v, 'harness'), env=env,
+                       stdout=subprocess.PIPE, stderr=subprocess.STDOUT, text=True, timeout=3000)
+    exe = os.path.join(v, '.build', 'cargo-fp', 'release', 'eg_oracle')
+    return exe if p.returncode == 0 and os.path.exists(exe) else None
+
+
 def search(tier, rng):
+    """the p_total batch on the default build, then (verdicts carried by `p_fixed_point` lines) the arc / sector cases and
+    every 4th other case again on the `fixed_point` build of the same harness"""
+    import subprocess
+    lines = list(search_default(tier, rng))
+    yield from lines
+    exe = fp_oracle()
+    if exe is None:
+        yield 'p_fixed_point FAIL class=fixed_point_build the harness does not build with --features fixed_point'
+        return
+    sel = [l for k, l in enumerate(lines) if l.startswith('p_total arc') or l.startswith('p_total sector') or k % 4 == 0]
+    procs = []
+    nsh = 4
+    for j in range(nsh):
+        part = sel[j::nsh]
+        procs.append((part, subprocess.Popen([exe], stdin=subprocess.PIPE, stdout=subprocess.PIPE, stderr=subprocess.DEVNULL, text=True)))
+    import threading
+    outs = {}
+
+    def feed(j, part, p):
+        o, _ = p.communicate('\n'.join(part) + '\n')
+        outs[j] = o.split('\n')
+    th = [threading.Thread(target=feed, args=(j, part, p)) for j, (part, p) in enumerate(procs)]
+    [t.start() for t in th]
+    [t.join() for t in th]
+    for j, (part, _) in enumerate(procs):
+        for k, l in enumerate(part):
+            r = outs[j][k] if k < len(outs[j]) and outs[j][k] else 'MISSING-OUTPUT'
+            yield 'p_fixed_point %s :: %s' % (r, l)
+
+
+def search_default(tier, rng):
     n = 1500 if tier == 'quick' else 40000
     # regression inputs of the repaired overflow defects (DESIGN.md section 6, known_findings.txt `fixed:` lines)
     yield 'p_total ellipse 0 0 320 240 S 1 1 3 1'
     yield 'p_total line 0 0 1000 700 S 0 1 30 1'
     yield 'p_total tri -480 -1 240 909 1 422 S 0 1 1 2'
     yield 'p_total image 3 3 10 10 7'
+    yield 'p_total tri 10 10 410 10 10 410 S 1 0 0 1'
+    yield 'p_total text 5 -7 0 1 1 0 10 15 3'
     for k in range(n):
         fam = FAMILIES[k % len(FAMILIES)]
         small = rng.random() < 0.35
